@@ -72,7 +72,7 @@ Section SpecProofs.
   Theorem compat_accepts t : forall s j,
     compat s t = true -> conforms s j = true -> extra_free s t j = true -> exists v, deser t j = Some v.
   Proof.
-    induction t as [|c|al| |lo hi| | |t IH|t IH|c t IH|fs IH] using ty_ind'; intros s j Hc Hj He; cbn [SerdeSpec.compat] in Hc.
+    induction t as [|c|al| |lo hi| |k| |t IH|t IH|c t IH|fs IH] using ty_ind'; intros s j Hc Hj He; cbn [SerdeSpec.compat] in Hc.
     - destruct s; try discriminate; destruct j; try discriminate; cbn; eauto.
     - destruct s; try discriminate. apply N.eqb_eq in Hc. subst. destruct j; try discriminate. cbn in Hj. cbn.
       rewrite Hj. eauto.
@@ -80,6 +80,7 @@ Section SpecProofs.
     - destruct s; try discriminate; destruct j; try discriminate; cbn; eauto.
     - destruct s; try discriminate. destruct j; try discriminate. cbn in Hj. cbn.
       replace ((lo <=? z)%Z && (z <=? hi)%Z) with true by lia. eauto.
+    - cbn. eauto.
     - cbn. eauto.
     - destruct s; try discriminate; destruct j; try discriminate; cbn; eauto.
     - apply andb_true_iff in Hc as [Hna Hc]. cbn [extra_free] in He.
